@@ -300,7 +300,7 @@ def run_C12(run):
     stats = [run.build_trace("tr_C12", "Gen_C12")]
     trace_cov(run, stats)
     gens = [os.path.join(run.dir, "Gen_C12.v")] if stats[0] else []
-    run.prove(gens, [], ["C12/P_C12.v", "C12/P_C12_b.v"], "C12/Properties_C12.v")
+    run.prove(gens, [], ["C12/P_C12.v", "C12/P_C12_b.v", "C12/P_C12_c.v"], "C12/Properties_C12.v")
     fails = oracle_sweep(run, "C12", [("all", [])], run.tier)
     run.fails = run.triage(fails)
     run.assumptions = ["identities are over the exact real value of the traced float expressions (sqrt = real square root); 'within rounding' is exercised by the oracle only",
@@ -317,7 +317,7 @@ def run_C04(run):
     stats = par([lambda m=m, fl=fl: run.build_trace("tr_C04", m, ["-DVT_NO_ASSERT"] + fl) for m, fl in cfgs])
     trace_cov(run, stats)
     gens = [os.path.join(run.dir, m + ".v") for m, _ in cfgs if os.path.exists(os.path.join(run.dir, m + ".v"))]
-    run.prove(gens, [], ["C04/P_C04_a.v", "C04/P_C04_euler.v", "C04/P_C04_wxyz.v"], "C04/Properties_C04.v")
+    run.prove(gens, [], ["C04/P_C04_a.v", "C04/P_C04_euler.v", "C04/P_C04_wxyz.v", "C04/P_C04_axis.v"], "C04/Properties_C04.v")
     fails = oracle_sweep(run, "C04", [("xyzw", []), ("wxyz", ["-DGLM_FORCE_QUAT_DATA_WXYZ"])], run.tier)
     run.fails = run.triage(fails)
     run.assumptions = ["real-number semantics of the traced expressions (sin/cos real functions); no rounding bounds",
@@ -350,7 +350,7 @@ def run_C13(run):
     stats = par([lambda m=m, fl=fl: run.build_trace("tr_C13", m, fl) for m, fl in cfgs])
     trace_cov(run, stats)
     gens = [os.path.join(run.dir, m + ".v") for m, _ in cfgs if os.path.exists(os.path.join(run.dir, m + ".v"))]
-    run.prove(gens, [], ["C13/P_C13.v", "C13/P_C13_cfg.v"], "C13/Properties_C13.v")
+    run.prove(gens, [], ["C13/P_C13.v", "C13/P_C13_cfg.v", "C13/P_C13_dual.v"], "C13/Properties_C13.v")
     fails = oracle_sweep(run, "C13", [("default", []), ("wxyz", ["-DGLM_FORCE_QUAT_DATA_WXYZ"]), ("xyzw", ["-DGLM_FORCE_QUAT_DATA_XYZW"])], run.tier)
     run.fails = run.triage(fails)
     run.assumptions = ["real-number semantics: acos/sin/cos are the real functions; the 'no NaN' statement is the real-valued guard (acos argument in [0,1-eps], sin(theta) <> 0) plus the assumption that libm's acos/sin return non-NaN values on in-range arguments",
